@@ -499,13 +499,22 @@ func (x *Exec) box(st *State, v string, t types.Type) string {
 		return v
 	}
 	tag := x.sortTag(t)
+	x.declBox(t)
+	tid := vc.typeID(t)
+	return fmt.Sprintf("(box_%s %s %s)", tag, tid, v)
+}
+
+// declBox declares the boxing functions of one value sort with their axioms.
+func (x *Exec) declBox(t types.Type) {
+	vc := x.vc
+	tag := x.sortTag(t)
+	if vc.ufs["box_"+tag] {
+		return
+	}
 	srt := vc.sortOf(t)
 	vc.uf("box_"+tag, []string{"Int", srt}, "Int")
 	vc.uf("unbox_"+tag, []string{"Int"}, srt)
-	tid := vc.typeID(t)
-	b := fmt.Sprintf("(box_%s %s %s)", tag, tid, v)
-	vc.assume("true", fmt.Sprintf("(and (> %s 0) (= (dyntype %s) %s) (= (unbox_%s %s) %s))", b, b, tid, tag, b, v))
-	return b
+	vc.emit(fmt.Sprintf("(assert (forall ((t Int) (v %s)) (! (and (> (box_%s t v) 0) (= (dyntype (box_%s t v)) t) (= (unbox_%s (box_%s t v)) v)) :pattern ((box_%s t v)))))", srt, tag, tag, tag, tag, tag))
 }
 
 func (x *Exec) typeAssert(fr *Frame, st *State, i *ssa.TypeAssert) {
@@ -526,11 +535,11 @@ func (x *Exec) typeAssert(fr *Frame, st *State, i *ssa.TypeAssert) {
 		val = xv
 	} else {
 		tag := x.sortTag(i.AssertedType)
-		srt := vc.sortOf(i.AssertedType)
-		vc.uf("box_"+tag, []string{"Int", srt}, "Int")
-		vc.uf("unbox_"+tag, []string{"Int"}, srt)
+		x.declBox(i.AssertedType)
 		ok = fmt.Sprintf("(= (dyntype %s) %s)", xv, vc.typeID(i.AssertedType))
 		val = fmt.Sprintf("(unbox_%s %s)", tag, xv)
+		// boxing the extracted value gives the interface value back
+		vc.assume(st.pc, fmt.Sprintf("(=> %s (= (box_%s %s %s) %s))", ok, tag, vc.typeID(i.AssertedType), val, xv))
 	}
 	if i.CommaOk {
 		okc := vc.define("taok", "Bool", ok)
